@@ -11,7 +11,12 @@ use std::process::{Child, Command, Stdio};
 use std::sync::Mutex;
 use std::time::{Duration, Instant};
 
-pub const SERVER_BIN: &str = "/verif/target/debug/rnacos-snap-c1617";
+pub const DEFAULT_SERVER_BIN: &str = "/verif/target/debug/rnacos-snap-c1617";
+
+/// the real server binary (override with RNV_SERVER_BIN, e.g. to run a mutant build)
+pub fn server_bin() -> String {
+    std::env::var("RNV_SERVER_BIN").unwrap_or_else(|_| DEFAULT_SERVER_BIN.to_string())
+}
 pub const ADMIN_USER: &str = "rnvadmin";
 /// unique per run, so that a successful login also proves that the port belongs to our own child
 pub fn admin_pass() -> &'static str {
@@ -82,6 +87,7 @@ impl Node {
     /// Start a single auto-initialised node with OpenAPI auth on; returns when an admin login works.
     /// Must be called from a thread that outlives the node (PR_SET_PDEATHSIG is tied to the spawning
     /// thread): the checks call it from their main thread only.
+    #[allow(dead_code)]
     pub fn start(work: &Path, name: &str, cfg: &NodeCfg) -> Result<Node, String> {
         Self::start_many(work, &[(name, cfg)]).map(|mut v| v.remove(0))
     }
@@ -114,8 +120,9 @@ impl Node {
     }
 
     fn spawn(work: &Path, name: &str, cfg: &NodeCfg) -> Result<Node, String> {
-        if !Path::new(SERVER_BIN).exists() {
-            return Err(format!("{} is not built", SERVER_BIN));
+        let bin = server_bin();
+        if !Path::new(&bin).exists() {
+            return Err(format!("{} is not built", bin));
         }
         let ports = free_ports(3)?;
         let (http, grpc, console) = (ports[0], ports[1], ports[2]);
@@ -124,7 +131,7 @@ impl Node {
         std::fs::create_dir_all(dir.join("data")).map_err(|e| format!("mkdir {}: {}", dir.display(), e))?;
         let log = std::fs::File::create(dir.join("server.log")).map_err(|e| e.to_string())?;
         let log2 = log.try_clone().map_err(|e| e.to_string())?;
-        let mut cmd = Command::new(SERVER_BIN);
+        let mut cmd = Command::new(&bin);
         cmd.current_dir(&dir) // no stray .env is picked up by dotenv
             .env_clear()
             .env("PATH", std::env::var("PATH").unwrap_or_default())
